@@ -161,41 +161,73 @@ func ruleLatencyReport(r *Run) {
 			r.CheckT("I1", on.Name+":signs-what-it-sends", strings.HasPrefix(data, "call:proto.Marshal(") && strings.HasSuffix(data, "#0") && sig == wantSig, on.Body.Pos(), path,
 				"the signature is over the Keccak-256 of exactly the bytes returned as data, made with the key Start was given (data %s, signature %s)", data, sig)
 			r.CheckT("I1", on.Name+":echoes-request", rid == "recv.RequestID", on.Body.Pos(), path, "the report answers the request that started the measurement")
-			// the data
+			// the data: a LatencyData literal in OnPing or in an unexported helper of the same type
 			ld = nil
-			ast.Inspect(on.Body, func(n ast.Node) bool {
-				if cl, ok := n.(*ast.CompositeLit); ok {
-					if _, tn := litTypeName(on.Info(), cl); tn == "LatencyData" {
-						ld = cl
-					}
+			ldFn := on
+			cands := []*Func{on}
+			for _, f2 := range r.P.All {
+				if f2 != on && f2.Recv != nil && f2.Obj != nil && !f2.Obj.Exported() && on.Recv != nil && types.Identical(f2.Recv.Type(), on.Recv.Type()) && r.onlyFrom(f2, on.Name) {
+					cands = append(cands, f2)
 				}
-				return true
-			})
+			}
+			for _, cf := range cands {
+				ast.Inspect(cf.Body, func(n ast.Node) bool {
+					if cl, ok := n.(*ast.CompositeLit); ok {
+						if _, tn := litTypeName(cf.Info(), cl); tn == "LatencyData" {
+							ld, ldFn = cl, cf
+						}
+					}
+					return true
+				})
+			}
 			if r.Check("I2", on.Name+":latency-data", ld != nil, on.Body.Pos(), "the report is built from a LatencyData literal") {
 				want := map[string]string{"SessionId": "recv.SessionID", "ClientId": "recv.ClientID", "WalletAddress": "recv.WalletAddress", "IterationCount": "conv:uint32(len(recv.PingRequests))"}
 				ok := true
 				got := map[string]string{}
 				for k, v := range want {
-					got[k] = r.P.Canon(on, litField(ld, k))
+					got[k] = r.P.canon(ldFn, litField(ld, k), 0)
 					if got[k] != v {
 						ok = false
 					}
 				}
 				r.CheckT("I2", on.Name+":bound-fields", ok, ld.Pos(), path, "the report names the session, client and wallet the measurement was started with and counts the recorded rounds (%v)", got)
-				r.CheckT("I2", on.Name+":marshals-that-data", strings.Contains(data, fmt.Sprintf("@%d", ld.Pos())), ld.Pos(), path, "the bytes signed and returned are the marshalled LatencyData")
+				marshalsIt := strings.Contains(data, fmt.Sprintf("@%d", ld.Pos()))
+				if !marshalsIt && ldFn != on {
+					// proto.Marshal(s.helper(...)) where every return of the helper is that literal
+					allRet := true
+					nRet := 0
+					ast.Inspect(ldFn.Body, func(n ast.Node) bool {
+						if _, isLit := n.(*ast.FuncLit); isLit {
+							return false
+						}
+						if rs, ok := n.(*ast.ReturnStmt); ok && len(rs.Results) == 1 {
+							nRet++
+							if r.P.compositeOf(ldFn, rs.Results[0]) != ld {
+								allRet = false
+							}
+						}
+						return true
+					})
+					marshalsIt = allRet && nRet > 0 && strings.Contains(data, "call:"+shortFuncName(ldFn.Obj)+"(")
+				}
+				r.CheckT("I2", on.Name+":marshals-that-data", marshalsIt, ld.Pos(), path, "the bytes signed and returned are the marshalled LatencyData (%s)", data)
 			}
 			// ping ids listed = keys of PingRequests
 			listed := false
 			if ld != nil {
 				if id, ok := ast.Unparen(litField(ld, "PingRequestIds")).(*ast.Ident); ok {
-					obj := on.Info().Uses[id]
-					sites := on.Defs().sites[obj]
+					obj := ldFn.Info().Uses[id]
+					sites := ldFn.Defs().sites[obj]
 					nApp := 0
 					okAll := true
 					for _, s := range sites {
+						c := ""
+						if s.rhs != nil {
+							c = r.P.canon(ldFn, s.rhs, 0)
+						}
 						switch {
 						case s.kind == "zero":
-						case s.kind == "assign" && s.rhs != nil && strings.HasPrefix(r.P.Canon(on, s.rhs), "append(local:") && strings.HasSuffix(r.P.Canon(on, s.rhs), ",rangekey(recv.PingRequests))"):
+						case s.kind == "assign" && strings.HasPrefix(c, "append(local:") && strings.HasSuffix(c, ",rangekey(recv.PingRequests))"):
 							nApp++
 						default:
 							okAll = false
